@@ -44,6 +44,15 @@ def _freqs():
     )
 
 
+def _snap_octave(case, spec, f):
+    """For octave scales, optionally move f next to (not onto) a whole octave above low_hz."""
+    o = case.get("near_octave")
+    if spec["alias"] != "octave" or not o:
+        return f
+    g = spec["low_hz"] * 2.0 ** o["k"] * (1.0 + o["e"])
+    return g if spec["low_hz"] <= g <= F_MAX else f
+
+
 def _lo(spec):
     return spec["low_hz"] if spec["alias"] == "octave" else 0.0
 
@@ -107,6 +116,7 @@ def _as_number(case, v):
 def check_roundtrip_hz(case):
     spec, f = case["scale"], _clamp_f(case["scale"], case["f"])
     sc = build_scale(spec)
+    f = _snap_octave(case, spec, f)
     _other_first(case, f)
     f = _as_number(case, f)
     s = call("hertz_to_scale", sc.hertz_to_scale, f)
@@ -160,7 +170,7 @@ def check_roundtrip_scale(case):
 def check_monotone(case):
     spec = case["scale"]
     sc = build_scale(spec)
-    f1 = _clamp_f(spec, case["f"])
+    f1 = _snap_octave(case, spec, _clamp_f(spec, case["f"]))
     gap = max(case["gap"] * max(f1, 1.0), 1e-9 * max(f1, 1.0))
     f2 = f1 + gap
     if f2 > F_MAX * 1.001:
@@ -269,7 +279,9 @@ def check_params(case):
 def clauses(tier):
     nt = st.sampled_from(["float", "float", "float", "int", "npint", "npfloat"])
     oth = st.one_of(st.none(), st.none(), st.sampled_from([0.5, 7.0, 100.0]))
-    spec_f = lambda: st.fixed_dictionaries({"scale": _scales(), "f": _freqs(), "numtype": nt, "other": oth})  # noqa
+    near = st.one_of(st.none(), st.none(), st.fixed_dictionaries({
+        "k": st.integers(1, 16), "e": st.one_of(log_uniform(-14, -3), log_uniform(-14, -3).map(lambda v: -v))}))
+    spec_f = lambda: st.fixed_dictionaries({"scale": _scales(), "f": _freqs(), "numtype": nt, "other": oth, "near_octave": near})  # noqa
     return [
         Clause(
             "roundtrip_hz", check_roundtrip_hz,
@@ -301,7 +313,7 @@ def clauses(tier):
         Clause(
             "monotone", check_monotone,
             "ordered pair f1 < f2 = f1 + gap (relative gap 1e-9..1e-1); every pair is non-trivial",
-            lambda: st.fixed_dictionaries({"scale": _scales(), "f": _freqs(), "gap": log_uniform(-9, -1)}),
+            lambda: st.fixed_dictionaries({"scale": _scales(), "f": _freqs(), "gap": log_uniform(-9, -1), "near_octave": near}),
             quick=5000, thorough=300000,
         ),
         Clause(
